@@ -309,6 +309,7 @@ def random_spec(rng, family="any", n_max=8, a_max=4, label_kind=None, uniform_ac
         sp.meta["reward_scale"] = reward_scale
     sp.flag = {states[i] for i in absorbing if abs_kind[i] in ("zero", "live")}
     sp.meta["abs_kinds"] = sorted(abs_kind.values())
+    sp.meta["abs_type"] = rng.choice(["bool", "bool", "int", "npbool"])    # what is_absorbing() returns
     sp.meta["trap"] = len(trap)
 
     # ---- initial distribution -----------------------------------------------------------------
